@@ -115,6 +115,11 @@ def shapes(tier):
         ("fun1", "f", [g.log(), g.exit(), g.lit()]),
         ("fun1", "h", [g.log(), ("call1", "f", "big", g.next_tag()), g.exit(), g.lit()]),
         g.block(inner_body=[("call1", "h", "big", g.next_tag())]), g.lit()])
+    # the finally part calls a function that has its own early exit while an exit is pending
+    add("finally-calls-function", lambda g: [
+        ("fun", "h", [g.log(), g.exit(), g.lit()]),
+        ("fun", "f", [("for", "i", "items", [g.block(inner_fin=[("call", "h", g.next_tag())], catches=1), g.log()]), g.lit()]),
+        ("call", "f", g.next_tag()), g.lit()])
     add("loop-in-block", lambda g: [g.block(inner_body=[("for", "i", "items", [g.log(), g.exit(), g.log()])]), g.lit()])
     if tier != "quick":
         add("depth3-body", lambda g: [g.block(inner_body=[g.block(inner_body=[g.block(catches=1)], catches=1)]), g.lit()])
@@ -165,10 +170,11 @@ def run(ctx, cell):
     ev = mkev(ctx, "ev", evk)
     ev2 = mkev(ctx, "ev2", "int")
     rv = vint(ctx.int("rv", 50, 52))
-    vals = {"sel": sel, "sel2": sel2, "kind": kind, "kind2": kind2, "ev": ev, "ev2": ev2, "rv": rv,
+    rv2 = vint(60)
+    vals = {"sel": sel, "sel2": sel2, "kind": kind, "kind2": kind2, "ev": ev, "ev2": ev2, "rv": rv, "rv2": rv2,
             "items": [vint(1), vint(2)]}
     env = {"sel": vint(sel), "sel2": vint(sel2), "kind": vint(kind), "kind2": vint(kind2), "ev": ev,
-           "ev2": ev2, "rv": rv, "items": vlist([vint(1), vint(2)]), "log": vlist([])}
+           "ev2": ev2, "rv": rv, "rv2": rv2, "items": vlist([vint(1), vint(2)]), "log": vlist([])}
     bigs = [vstr("x" * 60), vlist([vint(i) for i in range(30)]), vstr("short")]
     env["big"] = bigs[ctx.choice("big", len(bigs))]
     for i in range(1, g.ncatch + 1):
